@@ -231,6 +231,11 @@ class Translator:
         # has changed yet.  The protocol action is labelled when the operation reaches its next protocol gate.
         if self.opdone.get(op):
             return self.add(ev, {"act": "Stutter"})   # stepping a finished op
+        if to == "done":
+            self.opdone[op] = True
+            self.op_results[(self.sid, op)] = ev.get("res")
+            if isinstance(ev.get("res"), str) and ev["res"].startswith("panic"):
+                self.panics.append((self.sid, op, kind, ev["res"]))
         sub = do != "start" and frm.startswith("ns:")      # resumed from a sub-gate
         if sub:
             frm = self.pgate.get(op, "")
@@ -250,13 +255,6 @@ class Translator:
         if to == "blocked":
             self.issues.append("operation %s blocked at step %s of scenario %s" % (op, ev.get("i"), self.sid))
             return self.add(ev, {"act": "Unknown"})
-        if self.opdone.get(op):
-            return self.add(ev, {"act": "Stutter"})   # stepping a finished op
-        if to == "done":
-            self.opdone[op] = True
-            self.op_results[(self.sid, op)] = ev.get("res")
-            if isinstance(ev.get("res"), str) and ev["res"].startswith("panic"):
-                self.panics.append((self.sid, op, kind, ev["res"]))
         n = self.opnode.get(op, 0)
         if kind == "join":
             if do == "start":
